@@ -241,7 +241,8 @@ class HyperWorld(World):
 
     # ------------------------------------------------------------------
     def gen_op(self, rng, frng):
-        w = {"step": 10, "set_dt": 1.5, "set_rho": 0.8, "save_iter": 1.0, "rollback": 0.6 if self.saved else 0, "tangent": 2.0 if self.cfg["stress"] != "quadrature" else 0}
+        w = {"step": 10, "set_dt": 1.5, "set_rho": 0.8, "save_iter": 1.0, "rollback": 0.6 if self.saved else 0, "tangent": 2.0 if self.cfg["stress"] != "quadrature" else 0,
+             "energy_gradient": 1.5 if not (self.cfg.get("active") or self.cfg.get("eta")) else 0}
         names = sorted(w)
         pr = np.array([w[k] for k in names], dtype=float)
         name = names[int(rng.choice(len(names), p=pr / pr.sum()))]
@@ -258,6 +259,8 @@ class HyperWorld(World):
             op["i"] = int(rng.integers(len(self.saved)))
         elif name == "tangent":
             op.update(aseed=int(rng.integers(1 << 30)), theta=float(np.round(rng.uniform(0.1, 1.5), 3)), _mut=False)
+        elif name == "energy_gradient":
+            op.update(aseed=int(rng.integers(1 << 30)), _mut=False)
         return op
 
     def _one_step(self, fault):
@@ -352,6 +355,9 @@ class HyperWorld(World):
 
         if name == "tangent":
             return self._tangent_check(op)
+
+        if name == "energy_gradient":
+            return self._energy_gradient_check(op)
 
         if name == "step":
             for k in range(op["n"]):
@@ -462,6 +468,49 @@ class HyperWorld(World):
         if not err <= 1e-5 * scale + 100 * noise:
             raise Violation("tangent-not-derivative-of-residual", f"[{self.cfg['params']['law']}, {self.cfg['stress']} nPoints {self.cfg.get('nPoints')}, dt {self.dt}] A.d differs from the central difference of the residual by {err:.3e} (scale {scale:.3e})")
         ctx.checked()
+        return "ok"
+
+    def _energy_gradient_check(self, op):
+        """'The stress is the derivative of the stored energy', at the assembled level and on a state of the trajectory:
+        the internal force a brand-new static simulation (pointwise stress) assembles at u, contracted with a direction d,
+        must be the central difference of the total stored energy along d."""
+        sim, ctx = self.sim, self.ctx
+        if not hasattr(sim, self.TRIAL_ATTR):
+            ctx.probe("energy_gradient_check_unavailable")
+            return "skip"
+        from EasyFEA import Simulations
+
+        key = simlib.pt_key(self.pt)
+        u_n = simlib.get_state(sim)[key][0]
+        rng = arr_rng(op["aseed"])
+        n = u_n.size
+        u = u_n + rng.normal(size=n) * 1e-3
+        d = rng.uniform(-1, 1, n)
+        h = 1e-5
+        try:
+            with ctx.sut():
+                tw = Simulations.HyperElastic(meshlib.build(meshlib.library()[self.cfg["mesh"]]), make_law(self.cfg["params"]))
+                setattr(tw, self.TRIAL_ATTR, u.copy())
+                tw.Need_Update()
+                Rint = -tw.Assembly(tw.problemType)[3].toarray().ravel()
+                Ws = []
+                for uu in (u + h * d, u - h * d, u):
+                    tw._Set_solutions(tw.problemType, uu.copy())
+                    Ws.append(float(tw._Calc_W()))
+        except SutError as e:
+            if isinstance(e.exc, AssertionError):
+                return "rejected"
+            raise Violation("assembly-raises", f"a static assembly / energy evaluation at a state of the trajectory raised {e}", e.site)
+        if not (np.all(np.isfinite(Rint)) and np.all(np.isfinite(Ws))):
+            return "rejected"
+        fd = (Ws[0] - Ws[1]) / (2 * h)
+        an = float(Rint @ d)
+        scale = float(np.abs(Rint) @ np.abs(d))
+        noise = 1e-13 * max(abs(Ws[2]), 1e-300) / h
+        if not abs(fd - an) <= 1e-5 * scale + 100 * noise:
+            raise Violation("internal-force-not-derivative-of-energy", f"[{self.cfg['params']['law']}] R_int(u).d = {an:.8e}, central difference of the stored energy along d = {fd:.8e} (scale {scale:.3e}, W = {Ws[2]:.3e})")
+        ctx.checked()
+        ctx.probe("energy_gradient_checked")
         return "ok"
 
     def _W_of(self, u):
